@@ -168,6 +168,7 @@ RegistryT<ArgsT<TG_, TSL_, TRL_, NCC_, NOC_, NOU_, TRO_ HFSM2_IF_SERIALIZATION(,
 	HFSM2_ASSERT(request.destination < STATE_COUNT);
 
 	Parent parent;
+	bool viaOrthogonal = false;
 
 	for (parent = stateParents[request.destination];
 		 parent;
@@ -176,14 +177,23 @@ RegistryT<ArgsT<TG_, TSL_, TRL_, NCC_, NOC_, NOU_, TRO_ HFSM2_IF_SERIALIZATION(,
 		if (parent.forkId > 0) {
 			Prong& requested = compoRequested[parent.forkId - 1];
 
-			requested = parent.prong;
+			if (viaOrthogonal && compoActive[parent.forkId - 1] == parent.prong) {
+				// the orthogonal region on the way is active: only its addressed prongs are affected,
+				// re-entering it as a whole would re-resolve the untouched ones as well
+				if (requested != parent.prong)
+					requested  = INVALID_PRONG;
+			} else
+				requested = parent.prong;
+
 			parent = forkParent(parent.forkId);
 
 			break;
 		}
 		else
-		if (parent.forkId < 0)
+		if (parent.forkId < 0) {
 			requestedOrthoFork(parent.forkId).set(parent.prong);
+			viaOrthogonal = true;
+		}
 		else
 			HFSM2_BREAK();
 	}
